@@ -255,4 +255,89 @@ FirstDiff(a, b, p) ==
                   ELSE FirstDiff(a.ch[i][2], b.ch[i][2], Append(p, a.ch[i][1]))
             IN G[Len(a.ch)]
 
+----------------------------------------------------------------------------
+(***************************************************************************)
+(* SOURCE FILES of `!path` nodes.                                           *)
+(*                                                                          *)
+(* Every node of a text parsed under a file name knows that name            *)
+(* (yaml.py:242 `kwargs.setdefault('source_file', current file)`,           *)
+(* node.py:199).  It is STATE of a `!path` node: reference points `file`,   *)
+(* `parent`, `parent(n)` evaluate relative to it (path.py:118-128; without  *)
+(* one they raise ValueError), and it is the one piece of `source_file`     *)
+(* that a dump writes: PathNode.ayns.value (path.py:145-155) is the mapping *)
+(* {values, ref_point [, source_file]} - the key is there iff the node      *)
+(* knows a file.  `!path:<ref>` reads a mapping back as KEYWORD ARGUMENTS   *)
+(* (yaml.py:416-423 dict_is_data=False; 244-246 `kwargs.update(data)`): the *)
+(* mapping's `source_file` wins over the name of the text being re-read, so *)
+(* a dump that is saved elsewhere (or parsed from a string) still evaluates *)
+(* to the paths of the original.                                            *)
+(*                                                                          *)
+(* The node records of AyTree carry no file, so the source files are a      *)
+(* LAYER next to a node tree: a tree of the same shape, [sf, ch].  A file   *)
+(* name is the sequence of its components below an abstract root (the       *)
+(* harness puts the root into a scratch directory); NoFile = parsed from a  *)
+(* string.                                                                  *)
+(*                                                                          *)
+(* Design mutations (each must be refuted):                                 *)
+(*   ReparseOverridesSourceFile  the name of the text being re-read wins    *)
+(*                    over the mapping's key (`{**data, **kwargs}`)         *)
+(*   DumpOmitsSourceFile         the key is never written                   *)
+(***************************************************************************)
+NoFile == <<>>
+
+\* the layer of a text parsed under `name`
+RECURSIVE OrgParse(_, _)
+OrgParse(n, name) == [sf |-> name, ch |-> [i \in 1..Len(n.ch) |-> OrgParse(n.ch[i][2], name)]]
+
+\* path.py:151-155: what the dump of n writes under `source_file:` (NoFile = no such key)
+RECURSIVE SfDump(_, _)
+SfDump(n, o) == [w  |-> IF n.k = "path" /\ ~Mut("DumpOmitsSourceFile") THEN o.sf ELSE NoFile,
+                 ch |-> [i \in 1..Len(n.ch) |-> SfDump(n.ch[i][2], o.ch[i])]]
+
+\* the layer is defined where the re-parsed tree has the shape of the dumped one
+\* (not under PathNoRefWraps, which re-reads the whole mapping as a component)
+RECURSIVE SfFits(_, _)
+SfFits(u, w) == Len(u.ch) = Len(w.ch) /\ \A i \in 1..Len(u.ch) : SfFits(u.ch[i][2], w.ch[i])
+
+\* yaml.py:242-246: the layer of the dumped text re-read under `name`
+RECURSIVE SfReparse(_, _, _)
+SfReparse(u, w, name) ==
+    [sf |-> IF u.k = "path" /\ w.w # NoFile /\ ~Mut("ReparseOverridesSourceFile") THEN w.w ELSE name,
+     ch |-> [i \in 1..Len(u.ch) |-> SfReparse(u.ch[i][2], w.ch[i], name)]]
+
+\* path.py:118-128: the directory (or file) a reference point stands for.  `parent(n)` goes up n + 1 names textually.
+Ups(fn) == CASE fn = "parent" -> 1 [] fn = "parent(0)" -> 1 [] fn = "parent(1)" -> 2 [] fn = "parent(2)" -> 3 [] OTHER -> 0
+UsesFile(fn) == fn = "file" \/ Ups(fn) > 0
+RefBase(fn, sf) == IF ~UsesFile(fn) THEN <<"@", fn>>                      \* '.', cwd, abs(..): whatever the file
+                   ELSE IF sf = NoFile THEN <<"!", "ValueError">>
+                   ELSE <<"/">> \o SubSeq(sf, 1, IF Len(sf) > Ups(fn) THEN Len(sf) - Ups(fn) ELSE 0)
+
+\* the !path nodes of a tree in pre-order: reference point, source file, what the reference point evaluates to
+RECURSIVE SfList(_, _)
+SfList(n, o) ==
+    LET G[i \in 0..Len(n.ch)] == IF i = 0 THEN <<>> ELSE G[i-1] \o SfList(n.ch[i][2], o.ch[i])
+    IN (IF n.k = "path" THEN << [fn |-> n.fn, sf |-> o.sf, base |-> RefBase(n.fn, o.sf)] >> ELSE <<>>) \o G[Len(n.ch)]
+Bases(l) == [i \in 1..Len(l) |-> l[i].base]
+
+RECURSIVE HasPathNode(_)
+HasPathNode(n) == n.k = "path" \/ \E i \in 1..Len(n.ch) : HasPathNode(n.ch[i][2])
+
+\* original parsed under f, its dump re-read under g
+SfOrig(t, f)       == SfList(t, OrgParse(t, f))
+SfAgain(t, u, f, g) == SfList(u, SfReparse(u, SfDump(t, OrgParse(t, f)), g))
+\* every !path node evaluates relative to the same place ...
+SamePaths(t, u, f, g) == SfFits(u, SfDump(t, OrgParse(t, f))) => Bases(SfAgain(t, u, f, g)) = Bases(SfOrig(t, f))
+\* ... and a second dump writes the same `source_file:` keys
+SfStable(t, u, f, g)  == LET w == SfDump(t, OrgParse(t, f))
+                         IN SfFits(u, w) => SfDump(u, SfReparse(u, w, g)) = w
+
+\* <<name of the original, name the dump is re-read under>>: from a string and back (what the rest of this module is about);
+\* from a file and back (a) as a string, (b) as a file in another directory at another depth, (c) under the same name.
+\* (A document that never had a file name, re-read under one, is outside: `!path:parent` raises before and evaluates after.)
+FileA == <<"A", "cfg", "exp", "doc.yaml">>
+FileB == <<"B", "dumps", "re.yaml">>
+FilePairs == << <<NoFile, NoFile>>, <<FileA, NoFile>>, <<FileA, FileB>>, <<FileA, FileA>> >>
+SamePathsAll(t, u) == \A q \in 1..Len(FilePairs) : SamePaths(t, u, FilePairs[q][1], FilePairs[q][2])
+SfStableAll(t, u)  == \A q \in 1..Len(FilePairs) : SfStable(t, u, FilePairs[q][1], FilePairs[q][2])
+
 =============================================================================
